@@ -877,13 +877,11 @@ class Evaluator:
             elif lab and lv.nvdim == 1 and rv.nvdim == 1:
                 cls = "[D24]"
         if (err is None) != (err2 is None):
-            # input class of finding D25: NumPy object on one side, one-component field with an explicit label on the other,
-            # more than one component in the accepted result (the ufunc protocol keeps `self.vdims` unconditionally)
-            fld_, oth, okres = (lv, rv, r if err is None else r2) if lf else (rv, lv, r if err is None else r2)
-            cls = ""
-            if is_np_obj(oth) and isinstance(fld_, df.Field) and fld_.nvdim == 1 and fld_.vdims is not None \
-                    and okres is not None and okres.nvdim > 1 and isinstance(err if err is not None else err2, NotImplementedError):
-                cls = "[D25]"
+            # input class of finding D25: exactly one operand is a NumPy object (ndarray / NumPy scalar), the other a Field:
+            # `ndarray ∘ field` dispatches to __array_ufunc__ (NumPy broadcasting, labels kept unconditionally) while
+            # `field ∘ ndarray` goes through _apply_operator (shape test, labels dropped when the count changes), so one
+            # order can be accepted and the other refused
+            cls = "[D25]" if (lf != rf) and is_np_obj(rv if lf else lv) else ""
             self.fail(f"COMM{cls}: a{sym}b {'raises ' + type(err).__name__ if err else 'is accepted'} but b{sym}a "
                       f"{'raises ' + type(err2).__name__ if err2 else 'is accepted'} "
                       f"(a: {describe(lv)}, b: {describe(rv)})")
@@ -1309,7 +1307,7 @@ def known(case, text):
     if text.startswith("COMM[D10]"):
         return "D10"   # + or * between two fields with nvdim>1 whose labels or mappings differ; only labels/mapping differ
     if text.startswith("COMM[D25]"):
-        return "D25"   # ndarray * labelled one-component field -> NotImplementedError, field * ndarray accepted
+        return "D25"   # Field and NumPy object under + or *: one order is accepted, the other raises
     if text.startswith("COMM[D24]"):
         return "D24"   # two one-component fields with different (explicit) labels: labels of the left operand; only labels/mapping differ
     return None
